@@ -95,7 +95,7 @@ POOL = [
     ("EInt.A", lambda: EInt.A), ("EStr.X", lambda: EStr.X), ("IE.ONE", lambda: IE.ONE), ("FRWX.R", lambda: FRWX.R),
     ("object()", object), ("deep50", lambda: _deep(50)), ("[[1]]", lambda: [[1]]), ("[{}]", lambda: [{}]), ("[[1],[1]]", lambda: [[1], [1]]),
     ("NTItems", lambda: NTItems(5, 3, 1, None)), ("ObjItems", ObjItems), ("[NTItems]", lambda: [NTItems(5, 3, 1, None)]),
-    ("'a{9..9}'", lambda: "a{99999999999999999999}"), ("(0,(1,),10**30)", lambda: (0, (1,), 10**30)),
+    ("'a{9..9}'", lambda: "a{99999999999999999999}"), ("'(?a)(?u)x'", lambda: "(?a)(?u)x"), ("(0,(1,),10**30)", lambda: (0, (1,), 10**30)),
     ("'sNaN'", lambda: "sNaN"), ("[('a',1)]", lambda: [("a", 1)]), ("[['a',1],['b',2]]", lambda: [["a", 1], ["b", 2]]), ("['ab','cd']", lambda: ["ab", "cd"]),
     ("iter-of-pairs", lambda: iter([("a", 1)])), ("{('a',1)}", lambda: {("a", 1)}),
     ("Ellipsis", lambda: ...), ("NotImplemented", lambda: NotImplemented),
